@@ -675,6 +675,18 @@ class _ObserverRun:
                 m == m  # noqa: B015
                 m == cls()  # noqa: B015
                 if self.partner is not None:
+                    # reading a nested message of the partner (an observer as well) materialises its default,
+                    # so that the two operands differ in what is a placeholder and what is not
+                    subs = [fi for fi in ci.fields if _msg_field(fi)]
+                    if subs and t.draw(2, "partner-read"):
+                        try:
+                            sub = getattr(self.partner, t.choice(subs, "partner-read-field").name)
+                            if isinstance(sub, betterproto.Message) and t.draw(2, "partner-read-deeper"):
+                                s2 = [fi for fi in class_info(type(sub)).fields if _msg_field(fi)]
+                                if s2:
+                                    getattr(sub, s2[0].name)
+                        except AttributeError:
+                            pass
                     m == self.partner  # noqa: B015
                     self.partner == m  # noqa: B015
                 return "=="
